@@ -1,8 +1,759 @@
-//! C18 — not implemented yet (stub).
-use crate::engine::Opts;
-pub fn main(_opts: &Opts) -> i32 {
-    eprintln!("C18: check not implemented");
-    2
+//! C18 — RDF/XML serialisation round-trips every graph it accepts.
+//!
+//! Statement (properties.jsonl): serialising a graph to RDF/XML either fails with an error or
+//! produces a well-formed document whose parse is isomorphic to the graph restricted to the
+//! triples RDF/XML can express; for graphs whose predicates can be written as XML qualified
+//! names and whose text contains only XML-legal characters it always succeeds and loses
+//! nothing. Indentation settings never change the parsed result.
+//!
+//! Oracle pieces written here, independent of sophia / rio_xml / quick-xml:
+//!  * XML 1.0 character classes (Char, NameStartChar, NameChar) and "ends with an NCName";
+//!  * a small XML 1.0 well-formedness checker (prolog, elements, attributes, references);
+//!  * the set of RDF names that RDF/XML forbids (or re-interprets) as property elements;
+//!  * exact isomorphism (`iso::iso_exact`).
+use crate::engine::*;
+use crate::gen::{bnode_labels_exotic, bnode_labels_plain, tags};
+use crate::iso::{diff_summary, iso_exact};
+use crate::model::*;
+use proptest::prelude::*;
+use serde::{Deserialize, Serialize};
+use sophia_api::serializer::{Stringifier, TripleSerializer};
+use sophia_api::source::TripleSource;
+use sophia_api::term::SimpleTerm;
+use sophia_xml::serializer::{RdfXmlConfig, RdfXmlSerializer};
+use std::collections::BTreeSet;
+
+#[derive(Clone, Debug, Serialize, Deserialize)]
+pub struct Case {
+    pub triples: Vec<MQ>,
+    /// second indentation (1..=8); indentation 0 is always exercised as well
+    pub indent: u8,
+}
+
+pub struct C18;
+
+// ------------------------------------------------------------------ XML 1.0 character classes
+
+/// XML 1.0 (5th ed.) production [2] Char
+pub fn is_xml_char(c: char) -> bool {
+    matches!(c, '\u{9}' | '\u{A}' | '\u{D}' | '\u{20}'..='\u{D7FF}' | '\u{E000}'..='\u{FFFD}' | '\u{10000}'..='\u{10FFFF}')
+}
+/// production [4] NameStartChar (includes ':')
+fn is_name_start(c: char) -> bool {
+    matches!(c, ':' | 'A'..='Z' | '_' | 'a'..='z'
+        | '\u{C0}'..='\u{D6}' | '\u{D8}'..='\u{F6}' | '\u{F8}'..='\u{2FF}' | '\u{370}'..='\u{37D}'
+        | '\u{37F}'..='\u{1FFF}' | '\u{200C}'..='\u{200D}' | '\u{2070}'..='\u{218F}' | '\u{2C00}'..='\u{2FEF}'
+        | '\u{3001}'..='\u{D7FF}' | '\u{F900}'..='\u{FDCF}' | '\u{FDF0}'..='\u{FFFD}' | '\u{10000}'..='\u{EFFFF}')
+}
+/// production [4a] NameChar
+fn is_name_char(c: char) -> bool {
+    is_name_start(c) || matches!(c, '-' | '.' | '0'..='9' | '\u{B7}' | '\u{300}'..='\u{36F}' | '\u{203F}'..='\u{2040}')
+}
+fn is_ncname(s: &str) -> bool {
+    let mut it = s.chars();
+    match it.next() {
+        Some(c) if c != ':' && is_name_start(c) => it.all(|c| c != ':' && is_name_char(c)),
+        _ => false,
+    }
+}
+/// Can the IRI be written as namespace-name + NCName (i.e. as an XML qualified name)?
+/// True iff some proper suffix is an NCName: the trailing run of (non-colon) NameChars
+/// contains a (non-colon) NameStartChar.
+pub fn qname_able(iri: &str) -> bool {
+    for c in iri.chars().rev() {
+        if c == ':' || !is_name_char(c) {
+            return false;
+        }
+        if is_name_start(c) {
+            return true;
+        }
+    }
+    false
+}
+
+/// RDF names that cannot be used as property element names to denote themselves
+/// (RDF/XML Syntax 5.1: coreSyntaxTerms | rdf:Description | oldTerms are forbidden as
+/// propertyElementURIs; rdf:li is allowed but *means* rdf:_n).
+const RESERVED_LOCAL: &[&str] = &[
+    "RDF", "ID", "about", "parseType", "resource", "nodeID", "datatype", "Description", "aboutEach", "aboutEachPrefix", "bagID",
+    "li",
+];
+fn is_reserved_pred(iri: &str) -> bool {
+    iri.strip_prefix(RDF).map(|l| RESERVED_LOCAL.contains(&l)).unwrap_or(false)
+}
+
+// ------------------------------------------------------------------ XML well-formedness checker
+
+struct Xml<'a> {
+    s: &'a [char],
+    i: usize,
+}
+type XR<T> = Result<T, String>;
+impl<'a> Xml<'a> {
+    fn peek(&self) -> Option<char> {
+        self.s.get(self.i).copied()
+    }
+    fn starts(&self, p: &str) -> bool {
+        let pc: Vec<char> = p.chars().collect();
+        self.s.len() >= self.i + pc.len() && self.s[self.i..self.i + pc.len()] == pc[..]
+    }
+    fn eat(&mut self, p: &str) -> bool {
+        if self.starts(p) {
+            self.i += p.chars().count();
+            true
+        } else {
+            false
+        }
+    }
+    fn err<T>(&self, m: &str) -> XR<T> {
+        Err(format!("{m} at char offset {}", self.i))
+    }
+    fn ws(&mut self) -> bool {
+        let st = self.i;
+        while matches!(self.peek(), Some(' ' | '\t' | '\n' | '\r')) {
+            self.i += 1;
+        }
+        self.i > st
+    }
+    fn name(&mut self) -> XR<String> {
+        let st = self.i;
+        match self.peek() {
+            Some(c) if is_name_start(c) => self.i += 1,
+            _ => return self.err("expected a Name"),
+        }
+        while matches!(self.peek(), Some(c) if is_name_char(c)) {
+            self.i += 1;
+        }
+        Ok(self.s[st..self.i].iter().collect())
+    }
+    /// after '&'
+    fn reference(&mut self) -> XR<()> {
+        if self.eat("#x") {
+            let st = self.i;
+            while matches!(self.peek(), Some(c) if c.is_ascii_hexdigit()) {
+                self.i += 1;
+            }
+            let h: String = self.s[st..self.i].iter().collect();
+            if h.is_empty() || !self.eat(";") {
+                return self.err("malformed character reference");
+            }
+            let v = u32::from_str_radix(&h, 16).map_err(|e| e.to_string())?;
+            match char::from_u32(v) {
+                Some(c) if is_xml_char(c) => Ok(()),
+                _ => self.err("character reference to a non-Char"),
+            }
+        } else if self.eat("#") {
+            let st = self.i;
+            while matches!(self.peek(), Some(c) if c.is_ascii_digit()) {
+                self.i += 1;
+            }
+            let h: String = self.s[st..self.i].iter().collect();
+            if h.is_empty() || !self.eat(";") {
+                return self.err("malformed character reference");
+            }
+            let v: u32 = h.parse().map_err(|_| "bad char ref".to_string())?;
+            match char::from_u32(v) {
+                Some(c) if is_xml_char(c) => Ok(()),
+                _ => self.err("character reference to a non-Char"),
+            }
+        } else {
+            let n = self.name()?;
+            if !self.eat(";") {
+                return self.err("entity reference without ';'");
+            }
+            if ["lt", "gt", "amp", "apos", "quot"].contains(&n.as_str()) {
+                Ok(())
+            } else {
+                self.err("reference to an undeclared entity")
+            }
+        }
+    }
+    fn att_value(&mut self) -> XR<()> {
+        let q = match self.peek() {
+            Some(c @ ('"' | '\'')) => c,
+            _ => return self.err("expected a quoted attribute value"),
+        };
+        self.i += 1;
+        loop {
+            match self.peek() {
+                None => return self.err("unterminated attribute value"),
+                Some(c) if c == q => {
+                    self.i += 1;
+                    return Ok(());
+                }
+                Some('<') => return self.err("'<' in attribute value"),
+                Some('&') => {
+                    self.i += 1;
+                    self.reference()?
+                }
+                Some(_) => self.i += 1,
+            }
+        }
+    }
+    fn attributes(&mut self) -> XR<Vec<String>> {
+        let mut names = vec![];
+        loop {
+            let had_ws = self.ws();
+            match self.peek() {
+                Some('>') | Some('/') | Some('?') => return Ok(names),
+                _ => {}
+            }
+            if !had_ws {
+                return self.err("expected white space before attribute");
+            }
+            let n = self.name()?;
+            if names.contains(&n) {
+                return self.err("duplicate attribute");
+            }
+            names.push(n);
+            self.ws();
+            if !self.eat("=") {
+                return self.err("expected '='");
+            }
+            self.ws();
+            self.att_value()?;
+        }
+    }
+    fn misc(&mut self) -> XR<()> {
+        loop {
+            self.ws();
+            if self.starts("<!--") {
+                self.comment()?;
+            } else if self.starts("<?") {
+                self.pi()?;
+            } else {
+                return Ok(());
+            }
+        }
+    }
+    fn comment(&mut self) -> XR<()> {
+        self.eat("<!--");
+        loop {
+            if self.eat("-->") {
+                return Ok(());
+            }
+            if self.starts("--") {
+                return self.err("'--' in comment");
+            }
+            if self.peek().is_none() {
+                return self.err("unterminated comment");
+            }
+            self.i += 1;
+        }
+    }
+    fn pi(&mut self) -> XR<()> {
+        self.eat("<?");
+        let n = self.name()?;
+        if n.eq_ignore_ascii_case("xml") {
+            return self.err("reserved PI target");
+        }
+        loop {
+            if self.eat("?>") {
+                return Ok(());
+            }
+            if self.peek().is_none() {
+                return self.err("unterminated PI");
+            }
+            self.i += 1;
+        }
+    }
+    fn element(&mut self, depth: usize) -> XR<()> {
+        if depth > 200 {
+            return self.err("too deep");
+        }
+        if !self.eat("<") {
+            return self.err("expected '<'");
+        }
+        let n = self.name()?;
+        self.attributes()?;
+        if self.eat("/>") {
+            return Ok(());
+        }
+        if !self.eat(">") {
+            return self.err("expected '>'");
+        }
+        loop {
+            match self.peek() {
+                None => return self.err("unterminated element"),
+                Some('<') => {
+                    if self.starts("</") {
+                        self.eat("</");
+                        let e = self.name()?;
+                        if e != n {
+                            return self.err("mismatched end tag");
+                        }
+                        self.ws();
+                        if !self.eat(">") {
+                            return self.err("expected '>' in end tag");
+                        }
+                        return Ok(());
+                    } else if self.starts("<!--") {
+                        self.comment()?;
+                    } else if self.starts("<![CDATA[") {
+                        self.eat("<![CDATA[");
+                        loop {
+                            if self.eat("]]>") {
+                                break;
+                            }
+                            if self.peek().is_none() {
+                                return self.err("unterminated CDATA");
+                            }
+                            self.i += 1;
+                        }
+                    } else if self.starts("<?") {
+                        self.pi()?;
+                    } else {
+                        self.element(depth + 1)?;
+                    }
+                }
+                Some('&') => {
+                    self.i += 1;
+                    self.reference()?
+                }
+                Some(_) => {
+                    if self.starts("]]>") {
+                        return self.err("']]>' in character data");
+                    }
+                    self.i += 1;
+                }
+            }
+        }
+    }
+}
+
+/// Is `doc` a well-formed XML 1.0 document (no DTD expected)?
+pub fn well_formed(doc: &str) -> Result<(), String> {
+    if let Some((i, c)) = doc.char_indices().find(|(_, c)| !is_xml_char(*c)) {
+        return Err(format!("character U+{:04X} at byte {i} is not an XML Char", c as u32));
+    }
+    let chars: Vec<char> = doc.chars().collect();
+    let mut x = Xml { s: &chars, i: 0 };
+    if x.eat("<?xml") {
+        let atts = x.attributes()?;
+        if atts.first().map(String::as_str) != Some("version") {
+            return x.err("XML declaration without version");
+        }
+        if !x.eat("?>") {
+            return x.err("unterminated XML declaration");
+        }
+    }
+    x.misc()?;
+    if x.starts("<!DOCTYPE") {
+        return x.err("unexpected DOCTYPE");
+    }
+    x.element(0)?;
+    x.misc()?;
+    if x.peek().is_some() {
+        return x.err("content after the root element");
+    }
+    Ok(())
+}
+
+// ------------------------------------------------------------------ classification of the input
+
+fn strict_plain(t: &MQ) -> bool {
+    (t.s.is_iri() || t.s.is_bnode()) && t.p.is_iri() && (t.o.is_iri() || t.o.is_bnode() || t.o.is_literal())
+}
+fn text_legal(t: &MQ) -> bool {
+    t.o.lexical().map(|l| l.chars().all(is_xml_char)).unwrap_or(true)
+}
+fn pred(t: &MQ) -> &str {
+    match &t.p {
+        MT::Iri(i) => i,
+        _ => "",
+    }
+}
+#[derive(PartialEq, Eq, Clone, Copy, Debug)]
+enum Expr {
+    /// RDF/XML can express it
+    Yes,
+    /// cannot be expressed in standard RDF/XML, but a serializer may find a non-standard way
+    /// that its own parser reads back (predicate with no NCName suffix): either outcome accepted
+    Unclear,
+    No,
+}
+fn expressible(t: &MQ) -> Expr {
+    if !strict_plain(t) || !text_legal(t) || is_reserved_pred(pred(t)) {
+        Expr::No
+    } else if !qname_able(pred(t)) {
+        Expr::Unclear
+    } else {
+        Expr::Yes
+    }
+}
+
+fn triggers(ts: &[MQ]) -> Vec<&'static str> {
+    let mut v = vec![];
+    let mut add = |c: bool, n: &'static str| {
+        if c && !v.contains(&n) {
+            v.push(n)
+        }
+    };
+    add(ts.iter().any(|t| t.s.is_triple() || t.o.is_triple()), "quoted-triple");
+    add(ts.iter().any(|t| !text_legal(t)), "illegal-xml-char");
+    add(ts.iter().any(|t| is_reserved_pred(pred(t))), "reserved-rdf-name-predicate");
+    add(
+        ts.iter().any(|t| t.bnodes().iter().any(|b| !is_ncname(b)) && !t.s.is_triple() && !t.o.is_triple()),
+        "bnode-label-not-ncname",
+    );
+    add(ts.iter().any(|t| t.p.is_iri() && !qname_able(pred(t))), "unsplittable-predicate");
+    add(ts.iter().any(|t| t.o.lexical().is_some_and(|l| l.contains('\r'))), "literal-cr");
+    add(
+        ts.iter().any(|t| t.o.lexical().is_some_and(|l| !l.is_empty() && l.chars().all(char::is_whitespace))),
+        "literal-whitespace-only",
+    );
+    add(
+        ts.iter().any(|t| t.o.lexical().is_some_and(|l| l.starts_with(char::is_whitespace) || l.ends_with(char::is_whitespace))),
+        "literal-edge-whitespace",
+    );
+    add(ts.iter().any(|t| t.o.lexical().is_some_and(|l| l.contains(['<', '>', '&', '"', '\'']))), "literal-markup");
+    add(ts.iter().any(|t| t.o.lexical().is_some_and(|l| l.is_empty())), "literal-empty");
+    add(ts.iter().any(|t| t.o.datatype() == Some(&rdf("XMLLiteral")[..])), "xmlliteral");
+    add(ts.iter().any(|t| t.o.tag().is_some()), "language-tag");
+    add(ts.iter().any(|t| t.s.is_bnode() || t.o.is_bnode()), "blank-node");
+    add(true, "plain");
+    v
+}
+
+fn sig(kind: &str, trig: &[&'static str]) -> String {
+    let t = trig[0];
+    match t {
+        "illegal-xml-char" | "reserved-rdf-name-predicate" | "bnode-label-not-ncname" => format!("xml/{t}"),
+        _ => format!("xml/{kind}/{t}"),
+    }
+}
+
+fn serialize(ts: &[[SimpleTerm<'static>; 3]], indent: usize) -> Result<Result<String, String>, String> {
+    catch(|| {
+        let cfg = RdfXmlConfig::new().with_indentation(indent);
+        let mut ser = RdfXmlSerializer::new_stringifier_with_config(cfg);
+        match ser.serialize_graph(&ts.to_vec()) {
+            Ok(s) => Ok(s.to_string()),
+            Err(e) => Err(format!("{e}")),
+        }
+    })
+}
+fn parse(doc: &str) -> Result<Result<Vec<MQ>, String>, String> {
+    catch(|| {
+        let r: Result<Vec<[SimpleTerm<'static>; 3]>, _> = sophia_xml::parser::parse_str(doc).collect_triples();
+        match r {
+            Ok(v) => Ok(v.iter().map(|t| MQ::new(MT::from_term(&t[0]), MT::from_term(&t[1]), MT::from_term(&t[2]), None)).collect()),
+            Err(e) => Err(format!("{e}")),
+        }
+    })
+}
+
+/// Is `parsed` isomorphic to yes ∪ U' for some U' ⊆ unclear ?
+fn matches_restriction(yes: &[MQ], unclear: &[MQ], parsed: &[MQ]) -> bool {
+    let n = unclear.len().min(6);
+    // full set first (the common outcome), then the empty one, then the rest
+    let mut masks: Vec<u32> = vec![(1u32 << n) - 1, 0];
+    masks.extend(1..(1u32 << n) - 1);
+    masks.dedup();
+    let mut seen = BTreeSet::new();
+    for m in masks {
+        if !seen.insert(m) {
+            continue;
+        }
+        let mut exp = yes.to_vec();
+        for (i, t) in unclear.iter().enumerate() {
+            if i >= n || m & (1 << i) != 0 {
+                exp.push(t.clone());
+            }
+        }
+        if iso_exact(&exp, parsed) {
+            return true;
+        }
+    }
+    false
+}
+
+impl Check for C18 {
+    type Case = Case;
+    const ID: &'static str = "C18";
+    fn rule() -> String {
+        "graphs of 0..8 triples over dense pools (IRI/blank subjects sharing and alternating, predicates with many namespace split points, literals over XML-legal markup/whitespace/non-BMP characters, tags, datatypes incl. rdf:XMLLiteral; at low weight: RDF/XML-reserved predicate names, predicates with no NCName suffix, XML-illegal characters, non-NCName blank labels, quoted triples), serialised at indentation 0 and k in 1..8. Oracle: Err, or own XML 1.0 well-formedness check + sophia_xml parse + exact isomorphism with the expressible part; must-succeed class (QName-able non-reserved predicates, legal text, no quoted triple) must be Ok and lossless; parse(k) isomorphic to parse(0). Non-trivial = graph with a literal containing markup/whitespace-edge/CR/LF/TAB characters, or an unusual predicate split, or a non-NCName blank label; distinct by hash of the whole case.".into()
+    }
+    fn assumptions() -> Vec<String> {
+        vec![
+            "the parse judged is sophia_xml::parser (the property's observation point); a raw CR in character data (which a conforming XML processor would normalise to LF) is only counted (counter raw-cr-in-output)".into(),
+            "well-formedness is XML 1.0 well-formedness; element names like 'prop:' (legal XML 1.0 Name, not a Namespaces-QName) are only counted (counter non-qname-element)".into(),
+            "a triple whose predicate has no NCName suffix is outside standard RDF/XML: both dropping it and round-tripping it are accepted; an Err is accepted too".into(),
+            "predicates rdf:li, rdf:Description, rdf:RDF, rdf:ID, rdf:about, rdf:parseType, rdf:resource, rdf:nodeID, rdf:datatype, rdf:aboutEach, rdf:aboutEachPrefix, rdf:bagID cannot be expressed by RDF/XML (RDF/XML Syntax 5.1): accepted outcomes are Err or a document that parses to the graph without those triples".into(),
+            "language tags are compared case-insensitively".into(),
+        ]
+    }
+    fn cases(tier: Tier) -> u32 {
+        tier.pick(300_000, 9_600_000)
+    }
+    fn strategy(_tier: Tier) -> BoxedStrategy<Case> {
+        strategy()
+    }
+    fn run(case: &Case, ctx: &mut Ctx) {
+        run(case, ctx)
+    }
+}
+
+fn subj_iris() -> Vec<String> {
+    ["http://x/a", "http://x/b", "http://x/a?b=1&c=2", "http://x/it's", "http://é.example/ç?q=é#frag", "urn:x:y"]
+        .iter()
+        .map(|s| s.to_string())
+        .collect()
+}
+fn preds_ok() -> Vec<String> {
+    let mut v: Vec<String> = [
+        "http://x/ns#p",
+        "http://x/ns/r",
+        "http://x/p1",
+        "http://x/p_",
+        "http://x/p-",
+        "http://x/p.",
+        "http://x/1p",
+        "http://x/-p",
+        "http://x/p-1.2",
+        "http://x/ns#_1",
+        "urn:x:y",
+        "tag:t",
+        "http://x/é",
+        "http://x/a\u{b7}b",
+        "http://x/?q=v",
+        "http://x/a?b=1&c",
+        "http://x/a'b",
+        "http://x/\u{10000}x",
+        "http://x/a_b-c.d",
+        "http://x/ns#P",
+    ]
+    .iter()
+    .map(|s| s.to_string())
+    .collect();
+    for l in ["type", "_1", "value", "first", "rest", "_12"] {
+        v.push(rdf(l));
+    }
+    v.push(format!("{RDFS}label"));
+    v
+}
+fn preds_unsplittable() -> Vec<String> {
+    ["http://x/p/", "http://x/ns#", "http://x/1", "http://x/-1", "http://x/a%20", "http://x/p:", "http://x/?q=1", "http://x/.5"]
+        .iter()
+        .map(|s| s.to_string())
+        .collect()
+}
+fn preds_reserved() -> Vec<String> {
+    RESERVED_LOCAL.iter().map(|l| rdf(l)).collect()
+}
+const LEGAL: &[&str] = &[
+    "<", ">", "&", "\"", "'", " ", " ", "\n", "\t", "\r", "\r\n", "]]>", "&amp;", "&#1;", "<!--", "-->", "<?x ?>", "a", "b", "é", "\u{1F600}",
+    "\u{85}", "\u{2028}", "\u{FFFD}", "\u{D7FF}", "\u{E000}", "\u{10FFFF}", "\u{7f}", "\u{a0}", "\u{301}", "<a>", "</p>", "x y", "<![CDATA[",
+];
+const ILLEGAL: &[&str] = &["\u{0}", "\u{1}", "\u{8}", "\u{b}", "\u{c}", "\u{1f}", "\u{FFFE}", "\u{FFFF}"];
+
+fn lex(dirty: bool) -> BoxedStrategy<String> {
+    let legal = prop::collection::vec(pick(LEGAL.to_vec()), 0..=6).prop_map(|v| v.concat());
+    let simple = pick(vec!["", "a", "hello world", "42", " a ", "\n a\n", "<b>x</b>", "a&b", " "]).prop_map(String::from);
+    let illegal = (prop::collection::vec(pick(LEGAL.to_vec()), 0..=2), pick(ILLEGAL.to_vec()), prop::collection::vec(pick(LEGAL.to_vec()), 0..=2))
+        .prop_map(|(a, b, c)| format!("{}{}{}", a.concat(), b, c.concat()));
+    let any = prop::collection::vec(any::<char>(), 0..=5).prop_map(|v| v.into_iter().collect::<String>());
+    if dirty {
+        prop_oneof![5 => simple, 10 => legal, 1 => illegal, 1 => any].boxed()
+    } else {
+        let any_legal = any.prop_map(|s| s.chars().filter(|c| is_xml_char(*c)).collect::<String>());
+        prop_oneof![5 => simple, 10 => legal, 1 => any_legal].boxed()
+    }
+}
+fn dts() -> Vec<String> {
+    vec![xsd("string"), xsd("integer"), rdf("XMLLiteral"), "http://x/dt?a=1&b=2".into(), rdf("HTML"), xsd("double")]
+}
+
+fn strategy() -> BoxedStrategy<Case> {
+    prop_oneof![3 => strategy_for(false), 1 => strategy_for(true)].boxed()
+}
+fn strategy_for(dirty: bool) -> BoxedStrategy<Case> {
+    let mut bl = bnode_labels_plain()[..3].to_vec();
+    let bl_exotic = {
+        let mut e = bnode_labels_exotic();
+        e.push("1.a".into());
+        e.push("_1.a".into());
+        e.push("_0x".into());
+        e
+    };
+    bl.push("_".into());
+    let bnode = prop_oneof![5 => pick(bl).prop_map(MT::Bnode), 1 => pick(bl_exotic).prop_map(MT::Bnode)].boxed();
+    let iri = pick(subj_iris()).prop_map(MT::Iri).boxed();
+    let lit = prop_oneof![
+        4 => lex(dirty).prop_map(MT::string),
+        2 => (lex(dirty), pick(dts())).prop_map(|(l, d)| MT::Lit(l, d)),
+        2 => (lex(dirty), pick(tags())).prop_map(|(l, t)| MT::Lang(l, t)),
+    ]
+    .boxed();
+    let p = if dirty {
+        prop_oneof![
+            40 => pick(preds_ok()),
+            3 => pick(preds_unsplittable()),
+            2 => pick(preds_reserved()),
+        ]
+        .prop_map(MT::Iri)
+        .boxed()
+    } else {
+        pick(preds_ok()).prop_map(MT::Iri).boxed()
+    };
+    let quoted = (iri.clone(), pick(preds_ok()).prop_map(MT::Iri), iri.clone()).prop_map(|(s, p, o)| MT::triple(s, p, o)).boxed();
+    let qw = if dirty { 1 } else { 0 };
+    let s = prop_oneof![30 => iri.clone(), 20 => bnode.clone(), qw => quoted.clone()].boxed();
+    let o = prop_oneof![10 => iri, 10 => bnode, 30 => lit, qw => quoted].boxed();
+    let triple = (s, p, o).prop_map(|(s, p, o)| MQ::new(s, p, o, None));
+    (prop::collection::vec(triple, 0..=8), 1u8..=8).prop_map(|(triples, indent)| Case { triples, indent }).boxed()
+}
+
+fn run(case: &Case, ctx: &mut Ctx) {
+    let ts = &case.triples;
+    let trig = triggers(ts);
+    for t in &trig {
+        ctx.class(format!("has:{t}"));
+    }
+    // predicate split classes
+    for t in ts {
+        if t.p.is_iri() && qname_able(pred(t)) {
+            let p = pred(t);
+            let last = p.chars().last().unwrap();
+            if last.is_ascii_digit() || matches!(last, '_' | '-' | '.') {
+                ctx.class("pred-split:tail-digit-or-punct");
+            }
+            if !p.contains('#') && !p.starts_with("http") {
+                ctx.class("pred-split:no-slash-no-hash");
+            }
+        }
+    }
+    let yes: Vec<MQ> = ts.iter().filter(|t| expressible(t) == Expr::Yes).cloned().collect();
+    let unclear: Vec<MQ> = ts.iter().filter(|t| expressible(t) == Expr::Unclear).cloned().collect();
+    let must_succeed = yes.len() == ts.len();
+    ctx.class(if must_succeed { "class:must-succeed" } else { "class:may-fail" });
+    ctx.count("triples", ts.len() as u64);
+    ctx.count("triples-inexpressible", (ts.len() - yes.len() - unclear.len()) as u64);
+    let unusual_split = ts.iter().any(|t| {
+        let p = pred(t);
+        t.p.is_iri() && qname_able(p) && {
+            // "usual" = NCName starts right after the last '#' or '/' and ends with a letter
+            let cut = p.rfind(['#', '/']).map(|i| i + 1).unwrap_or(0);
+            !is_ncname(&p[cut..]) || !p.chars().last().unwrap().is_alphabetic()
+        }
+    });
+    let nasty_lit = ts.iter().any(|t| {
+        t.o.lexical().is_some_and(|l| {
+            l.contains(['<', '>', '&', '"', '\'', '\r', '\n', '\t']) || l.starts_with(' ') || l.ends_with(' ')
+        })
+    });
+    if !ts.is_empty() && (unusual_split || nasty_lit || trig.contains(&"bnode-label-not-ncname")) {
+        ctx.nontrivial();
+    }
+
+    let g: Vec<[SimpleTerm<'static>; 3]> = ts.iter().map(MQ::to_triple).collect();
+    let mut parsed0: Option<Vec<MQ>> = None;
+    let mut outcomes = vec![];
+    for (round, k) in [0usize, case.indent as usize].into_iter().enumerate() {
+        let doc = match serialize(&g, k) {
+            Err(p) => {
+                ctx.fail(sig("panic-serialize", &trig), format!("serializer panicked at indentation {k}: {p}\ninput:\n{}", show_quads(ts)));
+                return;
+            }
+            Ok(Err(e)) => {
+                outcomes.push(false);
+                ctx.class("outcome:err");
+                if must_succeed {
+                    ctx.fail(
+                        sig("error-on-expressible-graph", &trig),
+                        format!("indentation {k}: serializer failed ({e}) on a graph whose predicates are QName-able and whose text is XML-legal\ninput:\n{}", show_quads(ts)),
+                    );
+                    return;
+                }
+                continue;
+            }
+            Ok(Ok(d)) => d,
+        };
+        outcomes.push(true);
+        ctx.class("outcome:ok");
+        if doc.contains('\r') {
+            ctx.count("raw-cr-in-output", 1);
+        }
+        if doc.contains("<prop:") {
+            ctx.count("non-qname-element", 1);
+        }
+        if let Err(e) = well_formed(&doc) {
+            ctx.fail(
+                sig("not-well-formed", &trig),
+                format!("indentation {k}: output is not a well-formed XML document: {e}\ninput:\n{}\noutput:\n{doc:?}", show_quads(ts)),
+            );
+            return;
+        }
+        let parsed = match parse(&doc) {
+            Err(p) => {
+                ctx.fail(sig("panic-parse", &trig), format!("parser panicked on serializer output: {p}\noutput:\n{doc}"));
+                return;
+            }
+            Ok(Err(e)) => {
+                ctx.fail(
+                    sig("output-rejected-by-parser", &trig),
+                    format!("indentation {k}: sophia_xml's parser rejects the serializer's output: {e}\ninput:\n{}\noutput:\n{doc}", show_quads(ts)),
+                );
+                return;
+            }
+            Ok(Ok(p)) => p,
+        };
+        if !matches_restriction(&yes, &unclear, &parsed) {
+            let mut exp = yes.clone();
+            exp.extend(unclear.iter().cloned());
+            // Is the only difference that literals made of XML white space only came back empty?
+            let blank_ws = |t: &MQ| {
+                let mut t = t.clone();
+                if let MT::Lit(l, _) | MT::Lang(l, _) = &mut t.o {
+                    if !l.is_empty() && l.chars().all(|c| matches!(c, ' ' | '\t' | '\n' | '\r')) {
+                        l.clear();
+                    }
+                }
+                t
+            };
+            let yes_ws: Vec<MQ> = yes.iter().map(blank_ws).collect();
+            let unclear_ws: Vec<MQ> = unclear.iter().map(blank_ws).collect();
+            if trig.contains(&"literal-whitespace-only") && matches_restriction(&yes_ws, &unclear_ws, &parsed) {
+                ctx.fail(
+                    "xml/whitespace-only-literal",
+                    format!(
+                        "indentation {k}: a literal consisting of XML white space only is read back as the empty string\ninput:\n{}\nparsed:\n{}\noutput:\n{doc}",
+                        show_quads(ts),
+                        show_quads(&parsed)
+                    ),
+                );
+                return;
+            }
+            ctx.fail(
+                sig("not-isomorphic", &trig),
+                format!(
+                    "indentation {k}: parse of the output is not isomorphic to the expressible part of the graph\n{}\ninput:\n{}\nparsed:\n{}\noutput:\n{doc}",
+                    diff_summary(&exp, &parsed),
+                    show_quads(ts),
+                    show_quads(&parsed)
+                ),
+            );
+            return;
+        }
+        if round == 0 {
+            parsed0 = Some(parsed);
+        } else if let Some(p0) = &parsed0 {
+            if !iso_exact(p0, &parsed) {
+                ctx.fail(
+                    sig("indentation-changes-parse", &trig),
+                    format!("parse at indentation {k} differs from parse at indentation 0\n{}\noutput:\n{doc}", diff_summary(p0, &parsed)),
+                );
+                return;
+            }
+        }
+    }
+    if outcomes.len() == 2 && outcomes[0] != outcomes[1] {
+        ctx.count("ok-err-differs-between-indentations", 1);
+    }
+}
+
+pub fn main(opts: &Opts) -> i32 {
+    drive::<C18>(opts)
 }
 pub fn worker(_args: &[String]) -> i32 {
     2
